@@ -243,6 +243,11 @@ def r_all(model, rep):
         rep.violation("R3", "system.System.rail_rep", "%s:%d" % (rel, line), "the Warnings cell receives %s under %s: not the union of the warnings of the components on the rail" % (
             show(d), [c[1] for c in conds if c[0] in ("if", "ifnot")][-1:] or "no condition"), "warnings cell " + show(d))
     rep.instance("R3", "system.System.rail_rep warnings union", where, ok, "%d append site(s)" % len(apps))
+    # ---- R4 a cell is skipped, never the rest of the loop
+    for conds, dsc, ln in rd.breaks:
+        rep.violation("R4", "system.System.rail_rep", "%s:%d" % (rel, ln),
+                      "the (phase, rail) loop is left with `break` when %s: every later rail of that phase is dropped from the report" % (dsc[1] if isinstance(dsc, tuple) and len(dsc) > 1 else dsc,),
+                      "break in the cell loop")
     # ---- R4 emptiness skip
     first_line = min([a[2] for h in want for a in rd.appends.get(headers[h][1], []) if a[1][0] == "sel" and a[1][3] == "first"] or [0])
     skip = [s for s in rd.skips if s[2] < first_line and (".any()" in s[1][1] or "len(" in s[1][1] or ".empty" in s[1][1])]
